@@ -116,7 +116,7 @@ def run_property(pid, tier, plan, check_mod, level="model_checking", rule="", as
             per_world[world.name] = {"depth": r["depth_done"], "states": r["states"], "histories": r["histories"],
                                      "outcomes": r["outcomes"], "capped": r["capped"]}
             if r["capped"]:
-                capped.append(world.name)
+                capped.append(world.name + (" (stopped: %s)" % r["stopped_early"] if r.get("stopped_early") else ""))
             for history, i, sig, detail, summ in r["violations"]:
                 if sig.get("kind") == "__stat__":
                     stats[sig["name"]] += sig.get("n", 1)
@@ -127,6 +127,8 @@ def run_property(pid, tier, plan, check_mod, level="model_checking", rule="", as
             for s in r["samples"][:1]:
                 samples.append({"world": world.name, "history": [x["op"] for x in s],
                                 "observed": [{"rc": x["rc"], "ran": x["ran"], "listing": x["listing"]} for x in s]})
+            if r.get("stopped_early"):
+                break    # the subject hangs: the violations found so far are reported, the rest of the plan is not run
     finally:
         ex.close()
         common.cleanup_scratch()
